@@ -22,6 +22,7 @@ import (
 	"io"
 	"os"
 	"os/exec"
+	"path/filepath"
 	"strings"
 	"time"
 
@@ -246,14 +247,45 @@ func regressionInputs() []input {
 	}
 }
 
+// corpusInputs reads corpus/C15/*.txt (lines "<Type> <hex> <label>"); the observer runs in harness/.
+func corpusInputs() []input {
+	var ins []input
+	files, _ := filepath.Glob("../corpus/C15/*.txt")
+	for _, f := range files {
+		data, err := os.ReadFile(f)
+		if err != nil {
+			continue
+		}
+		for _, ln := range strings.Split(string(data), "\n") {
+			fs := strings.Fields(ln)
+			if len(fs) < 2 || strings.HasPrefix(ln, "#") {
+				continue
+			}
+			b, err := hex.DecodeString(fs[1])
+			if err != nil {
+				continue
+			}
+			for k, name := range cg.KindNames {
+				if name == fs[0] {
+					ins = append(ins, input{cg.Kind(k), b, "corpus " + strings.Join(fs[2:], " "), false})
+				}
+			}
+		}
+	}
+	return ins
+}
+
 func buildInputs(c *vkit.Collector, rng *vkit.Rng, budget int) []input {
-	ins := regressionInputs()
+	ins := append(corpusInputs(), regressionInputs()...)
+	c.Extra["corpus_inputs"] = len(ins) - len(regressionInputs())
 	add := func(k cg.Kind, data []byte, label string, big bool) {
 		ins = append(ins, input{k, data, cg.KindNames[k] + " " + label, big})
 	}
-	bigQuota := 2 * budget
 	perKind := 3 * budget
 	for k := cg.Kind(0); k < cg.NumKinds; k++ {
+		// count mutations that stay within the documented limit but are large: at most [budget]
+		// of them per type and run (each may take seconds and up to 1.2 GB in the child)
+		var bigs []input
 		for r := 0; r < perKind; r++ {
 			b, class := encodeKind(rng, k)
 			add(k, b, "valid "+class, false)
@@ -281,16 +313,11 @@ func buildInputs(c *vkit.Collector, rng *vkit.Rng, budget int) []input {
 			// count fields
 			for _, mu := range cg.FieldMutations(k, b) {
 				if mu.Big {
-					if bigQuota <= 0 {
-						c.Class("count-mutation-within-limit(skipped)")
-						continue
-					}
-					bigQuota--
-					c.Class("count-mutation-within-limit(run)")
-				} else {
-					c.Class("count-mutation")
+					bigs = append(bigs, input{k, mu.Data, cg.KindNames[k] + " count " + mu.Label, true})
+					continue
 				}
-				add(k, mu.Data, "count "+mu.Label, mu.Big)
+				c.Class("count-mutation")
+				add(k, mu.Data, "count "+mu.Label, false)
 			}
 			// version bytes
 			if r == 0 && len(b) > 0 {
@@ -301,6 +328,15 @@ func buildInputs(c *vkit.Collector, rng *vkit.Rng, budget int) []input {
 					c.Class("version-byte")
 				}
 			}
+		}
+		for q := 0; q < budget && len(bigs) > 0; q++ {
+			j := rng.Intn(len(bigs))
+			ins = append(ins, bigs[j])
+			bigs = append(bigs[:j], bigs[j+1:]...)
+			c.Class("count-mutation-within-limit(run)")
+		}
+		for range bigs {
+			c.Class("count-mutation-within-limit(skipped)")
 		}
 		// random strings
 		for r := 0; r < 12*budget; r++ {
@@ -385,12 +421,11 @@ func run(c *vkit.Collector, rng *vkit.Rng, budget int) {
 			c.Sample(map[string]interface{}{"type": kn, "label": inp.Label, "input_hex": tail(hexIn, 120), "outcome": r.Out, "use": r.Use})
 		}
 		if inp.Big {
-			c.Extra["within_limit:"+inp.Label] = map[string]interface{}{"outcome": r.Out, "ms": r.Millis}
+			c.Extra[fmt.Sprintf("within_limit:%d:%s", i, inp.Label)] = map[string]interface{}{"outcome": r.Out, "ms": r.Millis}
 		}
 	}
 	c.Extra["outcomes"] = outcomes
 	c.Extra["child_runs"] = len(ins)
 	c.Extra["child_wall_s"] = time.Since(t0).Seconds()
 	c.Extra["slowest_decode_ms"] = slowest
-	_ = strings.Join
 }
